@@ -185,3 +185,12 @@ CHECKS["C23"] = dict(
     level_text="Generated operation lists with the state/queue agreement checked at every quiescent point (typically 10-40 per case), not at hand-picked moments. One defect (cancelled queued request keeps its task) found and fixed.",
     level_note="Quiescence is synctest's: every goroutine of both instances durably blocked. Trusts peerstate.Diagnostics as the definition of agreement (it is the property's own observation point).",
     technique="rapid operation-sequence testing in a synctest bubble with an invariant checked at every quiescent point", design_ref="DESIGN.md §4 C23")
+
+CHECKS["C06"] = dict(
+    pkg="props/c06", level="exploration", gomaxprocs=1, replay_reps=10,
+    rule="a C02-style case (generated DAG x selector x 4-way store split) run twice between two real instances: uninterrupted, and with a generated pause script: the requestor's incoming-block hook pauses at its n-th block (1-6) or the responder's outgoing-block hook pauses at block n, or a storage gate on either side holds the traversal at its n-th read; plus up to 24 operations from {deliver the oldest message of a chosen direction, requestor API pause / unpause, responder API pause / unpause, open a gate, let 150 ms pass}; at the end everything paused is resumed (repeatedly) and everything delivered. Oracle (metamorphic): delivered (path,node,last-block) sequence, error multiset, channel closure and stored blocks equal those of the uninterrupted run; and after a message carrying RequestPaused for the request the responder sends no metadata or block for it until it is unpaused (or the requestor cancels / re-sends the request). Non-trivial: PeerState listed the request as paused on either side at some quiescent point, it needed the responder, and it delivers more than one node. Cases in three known-finding classes are excluded by construction and counted.",
+    assumptions=_SIM_ASSUME + ["every paused request is eventually resumed by the script", "the uninterrupted run on the same tree is the reference (C02 judges that run against the independent reference traversal)"],
+    quick=dict(shards=2, timeout=400), thorough=dict(shards=16, timeout=3000),
+    level_text="Metamorphic random testing: every case is its own control; pause points, sides, triggers and the interleaving of in-flight messages with the resume are generated. Two defects found and fixed, two recorded.",
+    level_note="Trusts the uninterrupted run as reference. Schedule freedom inside one harness step is the Go scheduler's (GOMAXPROCS=1); replays are repeated 10x.",
+    technique="rapid metamorphic testing (paused vs uninterrupted run) in a synctest bubble", design_ref="DESIGN.md §4 C06")
